@@ -74,7 +74,16 @@ fn main() {
     i += 2;
   }
   std::fs::create_dir_all(&ctx.work).unwrap();
-  let report = props::run(&ctx);
+  let mut report = props::run(&ctx);
+  {
+    use std::sync::atomic::Ordering::Relaxed;
+    for (k, n) in [("argv-spelling:as-written", run::SPELL_PLAIN.load(Relaxed)), ("argv-spelling:short-flag", run::SPELL_SHORT.load(Relaxed)),
+      ("argv-spelling:flag=value", run::SPELL_EQUALS.load(Relaxed)), ("argv-spelling:positional-input", run::SPELL_POSITIONAL.load(Relaxed))] {
+      if n > 0 {
+        report.hit_n(k, n);
+      }
+    }
+  }
   let json = serde_json::to_string_pretty(&report.to_json()).unwrap();
   match out {
     Some(path) => std::fs::write(path, json).unwrap(),
